@@ -6,6 +6,9 @@
 #include <cstdio>
 #include <cstdlib>
 #include <cstring>
+#include <csignal>
+#include <functional>
+#include <unistd.h>
 #include <map>
 #include <set>
 #include <sstream>
@@ -76,6 +79,27 @@ namespace vf
 
     template <class T>
     inline std::string str(const T& v) { std::ostringstream o; o << v; return o.str(); }
+
+    // ---- hard crashes (SIGSEGV, SIGABRT, ...) are attributed to the step that was executing: the explorers register
+    // a hook that reports a violation for their current (state, operation); the run then ends with a "crashed" record.
+    inline std::function<void(const char*)>& crash_hook() { static std::function<void(const char*)> h; return h; }
+    inline void on_fatal_signal(int sig)
+    {
+        static volatile int in = 0;
+        if (in++) _exit(4);
+        const char* name = sig == SIGSEGV ? "SIGSEGV" : sig == SIGABRT ? "SIGABRT" : sig == SIGFPE ? "SIGFPE" : sig == SIGBUS ? "SIGBUS" : sig == SIGILL ? "SIGILL" : "signal";
+        if (crash_hook()) crash_hook()(name);
+        reporter& r = reporter::get();
+        for (auto& kv : r.stats) std::printf("@@{\"t\":\"stat\",\"k\":\"%s\",\"v\":%lld}\n", jesc(kv.first).c_str(), kv.second);
+        std::printf("@@{\"t\":\"crashed\",\"v\":\"%s\"}\n", name);
+        std::fflush(stdout);
+        _exit(3);
+    }
+    inline void install_crash_handler()
+    {
+        int sigs[] = {SIGSEGV, SIGABRT, SIGFPE, SIGBUS, SIGILL};
+        for (int s : sigs) std::signal(s, on_fatal_signal);
+    }
 
     // ---- sanitizer as oracle: ASan runs in recover mode, the hook sets a flag ----
     inline int& asan_flag() { static int f = 0; return f; }
